@@ -30,9 +30,11 @@ func checkC13(r *Report, known []Finding) {
 		var ops, obs []string
 		rng := root.Fork(1)
 		record := func() { obs = append(obs, fmt.Sprintf("%d:%d:%d", st.Generation, len(st.Visited), cap(st.Visited))) }
-		calls := 70000
+		tinv := r.Tie("BacktrackerState invariant: every stamp in the backing array <= Generation (after every call)")
+		staleReported := false
+		calls := 25000
 		if r.Tier == "thorough" {
-			calls = 4000
+			calls = 70000
 		}
 		for i := 0; i < calls; i++ {
 			ln := []int{0, 1, 3, 10, 40, 100, 150}[rng.Intn(7)]
@@ -41,6 +43,24 @@ func checkC13(r *Report, known []Finding) {
 				bt.IsMatchWithState(h, st)
 				ops = append(ops, fmt.Sprintf("r%d", ns*(ln+1)))
 				record()
+			} else if rng.Chance(25) {
+				// leftmost-longest mode: one reset, then one generation bump per failed start position (the haystack has no
+				// match, so every start position from at to len fails); the wrap can land inside this loop
+				at := 0
+				if ln > 0 {
+					at = rng.Intn(ln + 1)
+				}
+				st.Longest = true
+				bt.SearchAtWithState(h, at, st)
+				st.Longest = false
+				ops = append(ops, fmt.Sprintf("r%d", ns*(ln-at+1)))
+				record()
+				for k := at; k <= ln; k++ {
+					ops = append(ops, "b")
+					obs = append(obs, "-")
+				}
+				obs[len(obs)-1] = fmt.Sprintf("%d:%d:%d", st.Generation, len(st.Visited), cap(st.Visited))
+				obs[len(obs)-(ln-at+1)-1] = "-" // the state right after the reset is not observable from outside
 			} else {
 				at := 0
 				if ln > 0 {
@@ -51,6 +71,23 @@ func checkC13(r *Report, known []Finding) {
 				record()
 			}
 			r.Case(fmt.Sprintf("vis\x00%d", i), true)
+			// the inductive invariant behind vis_fresh_*: no stamp anywhere in the backing array (also beyond len) is newer than
+			// the current generation, so the next bump makes every entry unvisited
+			if !staleReported {
+				full := st.Visited[:cap(st.Visited)]
+				for k, v := range full {
+					if v > st.Generation {
+						staleReported = true
+						tinv.Disagreements++
+						r.Violate(fmt.Sprintf("visited table after call %d (%s): entry %d of the backing array (len %d, cap %d) carries stamp %d > current generation %d; it becomes a false 'visited' when the counter reaches it on a longer input",
+							i, ops[len(ops)-1], k, len(st.Visited), cap(st.Visited), v, st.Generation),
+							map[string]any{"correspondence": "invariant of Cx.State.Vis (stamps <= generation) on nfa.BacktrackerState", "call_index": i, "entry": k, "stamp": v, "generation": st.Generation,
+								"history": "pattern ab; calls are IsMatchWithState / SearchAtWithState (leftmost-first and leftmost-longest) on z^n, n in {0,1,3,10,40,100,150}, seed-derived"}, false)
+						break
+					}
+				}
+				tinv.Cases++
+			}
 		}
 		ans, err := RunLean([]string{"vis " + strings.Join(ops, ",")})
 		if err != nil {
